@@ -172,9 +172,22 @@ def _read_rel(body, al, op, hops=3):
     return None
 
 
+def _keep_prefixes():
+    out = {()}
+    for paths in KEEP_PATHS.values():
+        for p in paths:
+            for i in range(1, len(p) + 1):
+                out.add(tuple(p[:i]))
+    return out
+
+
 def replacement_sites(prog, mod):
-    """Statements that overwrite a whole DelaunayTriangulation receiver: (body q, stmt, block)."""
+    """Statements that overwrite a whole DelaunayTriangulation receiver, or a whole sub-structure of it that
+    encloses (or is) configured state, with the same part of another value (`*self = candidate`,
+    `self.tri = candidate.tri`): (body q, stmt, block).  Stores whose source is not the same path of a
+    local are ordinary writes and are left to the dataflow."""
     out = []
+    prefixes = _keep_prefixes()
     for q, b in prog.bodies.items():
         if b.nargs < 1:
             continue
@@ -186,15 +199,58 @@ def replacement_sites(prog, mod):
                 if s.kind != 'A' or s.place.is_local():
                     continue
                 al = al or mod.aliases(q)
-                if _self_rel(b, al, s.place) == ():
+                rel = _self_rel(b, al, s.place)
+                if rel == ():
                     out.append((q, s, blk.idx))
+                elif rel in prefixes and s.rv.k == 'use' and s.rv.ops and s.rv.ops[0].place is not None:
+                    sp = _src_path(b, al, s.rv.ops[0])
+                    if sp is not None and tuple(sp[1]) == rel and _is_dt_local(b, sp[0]):
+                        out.append((q, s, blk.idx))
     return out
 
 
-def _builders(prog, mod, body, al, local):
-    """Crate-local callees, taking the receiver by reference, that the value of `local` comes from."""
+def _src_path(body, al, op, hops=3):
+    """(local, fields) of the by-value place an operand's value was moved / copied out of, through temporaries."""
+    if op.place is None:
+        return None
+    root, fields, derefd = al.norm(op.place)
+    if derefd:
+        return None
+    if fields or hops == 0 or not op.place.is_local():
+        return (root, tuple(fields))
+    d = body.single_def(op.place.local)
+    if d is not None and d[1] != 'term' and d[2].rv.k == 'use' and d[2].rv.ops:
+        sub = _src_path(body, al, d[2].rv.ops[0], hops - 1)
+        if sub is not None:
+            return sub
+    return (root, tuple(fields))
+
+
+def _is_dt_local(body, local):
+    ty = body.locals[local] if isinstance(local, int) and local < len(body.locals) else ''
+    return ty.startswith(DT + '<') or ('::' + DT.rsplit('::', 1)[-1] + '<') in ty or 'DelaunayTriangulation<' in ty
+
+
+def _builders(prog, mod, body, al, local, q=None, depth=2):
+    """Crate-local callees, taking the receiver by reference, that the value of `local` comes from.  A
+    value that is a by-value parameter of a helper method (`fn adopt(&mut self, candidate: Self)`) is
+    followed to every call site of the helper; one call site without a builder voids the result."""
     import valueflow
     out = []
+    pidx = _param_of(body, local)
+    if pidx is not None and pidx >= 2 and q is not None and depth > 0 and body.kind != 'closure':
+        sites = [(cq, blk.term) for cq in sorted(prog.callers.get(q, ())) for blk in prog.bodies[cq].blocks
+                 if not blk.cleanup and blk.term.k == 'call' and q in (blk.term.resolved, blk.term.callee)]
+        for cq, t in sites:
+            cb = prog.bodies[cq]
+            cal = mod.aliases(cq)
+            if pidx - 1 >= len(t.args) or t.args[pidx - 1].place is None or _target_rel(cb, cal, t.args[0]) != ():
+                return []
+            sub = _builders(prog, mod, cb, cal, t.args[pidx - 1].place.local, cq, depth - 1)
+            if not sub:
+                return []
+            out += sub
+        return sorted(set(out))
     for leaf in valueflow.sources(body, al, local):
         if leaf[0] != 'call':
             continue
@@ -209,6 +265,20 @@ def _builders(prog, mod, body, al, local):
             if 'DelaunayTriangulation<' in prog.bodies[name].locals[0]:
                 out.append(name)
     return sorted(set(out))
+
+
+def _param_of(body, local, hops=4):
+    """Index of the by-value parameter that `local` is (through plain moves), or None."""
+    while hops >= 0:
+        if 1 <= local <= body.nargs:
+            return local
+        d = body.single_def(local)
+        if d is None or d[1] == 'term' or d[2].rv.k != 'use' or not d[2].rv.ops or d[2].rv.ops[0].place is None \
+                or not d[2].rv.ops[0].place.is_local():
+            return None
+        local = d[2].rv.ops[0].place.local
+        hops -= 1
+    return None
 
 
 def _family(prog, q):
@@ -272,8 +342,13 @@ def keep_table(prog, mod):
         owner = b.root or q
         al = mod.aliases(q)
         src = s.rv.ops[0].place if s.rv.k == 'use' and s.rv.ops else None
-        builders = _builders(prog, mod, b, al, src.local) if src is not None else []
+        sp = _src_path(b, al, s.rv.ops[0]) if src is not None else None
+        builders = _builders(prog, mod, b, al, sp[0] if sp is not None else src.local, q) if src is not None else []
+        rel = _self_rel(b, al, s.place) or ()
         for f, paths in KEEP_PATHS.items():
+            paths = [p for p in paths if tuple(p[:len(rel)]) == tuple(rel)]
+            if not paths:
+                continue        # this store does not cover the field
             ok, details = True, []
             if not builders:
                 ok, details = False, ['the replacement value does not come from a builder that takes the receiver']
